@@ -111,6 +111,13 @@ CHECKS = {
         note="Known finding K5 (C printer re-associates right-nested float + and *) classified by predicate + counterfactual (same module printed with parentheses preserved). Unsafe programs are discarded.",
         design="3/C06",
     ),
+    "C13": dict(
+        level="exploration",
+        technique="runtime monitoring with an LD_PRELOAD malloc/realloc/free interposer (kernel blocks tagged inside a C trampoline around the compiled function pointer) + offline checker of the event log against a name->tensor->blocks ownership model",
+        text="~12k histories per quick run (every op-kind sequence of length <= 4 over eval/alias/rawref/read/pickle/feed/del/gc, random longer ones, a cffi back end sample, a 2000-iteration evaluation loop): no block freed while referenced, none freed twice, every block freed by the gc step after its last reference, kernel allocations exactly the arrays handed back, no input block touched.",
+        note="Bounded restatement of 'when the last reference disappears' (next gc step). Event order decides, not whether stale data is still readable.",
+        design="3/C13",
+    ),
 }
 
 PENDING = {
